@@ -144,6 +144,31 @@ func c02Check(c c02Case) *Violation {
 	if !bytes.Equal(out.Bytes(), want) {
 		return viol("bytes", "%s(host=%q, %d, guest=%q) residues = %q, want %q", name, hostBytes, i, guestBytes, out.Bytes(), want)
 	}
+	// the result keeps reading host[:i]+guest+host[i:] when the same host later receives another guest (the host is
+	// also built with spare capacity behind its residues, as a value that came out of an earlier edit has)
+	{
+		roomy := make([]byte, c.HostLen, c.HostLen+2*n+8)
+		copy(roomy, hostBytes)
+		host2 := gts.New(nil, featsToGts(c.Host), roomy)
+		other := gts.New(nil, nil, idBytes(70, n))
+		var first gts.Sequence
+		if pi := guard(func() {
+			if c.Embed {
+				first = gts.Embed(host2, c.Index, guest)
+				gts.Embed(host2, c.Index, other)
+				gts.Embed(host, c.Index, other)
+			} else {
+				first = gts.Insert(host2, c.Index, guest)
+				gts.Insert(host2, c.Index, other)
+				gts.Insert(host, c.Index, other)
+			}
+		}); pi != nil {
+			return panicViolation(name+" (second guest into the same host)", pi)
+		}
+		if !bytes.Equal(first.Bytes(), want) || !bytes.Equal(out.Bytes(), want) {
+			return viol("bytes-later", "%s(host=%q, %d, guest=%q): after the same host received another guest the first result reads %q / %q, want %q", name, hostBytes, i, guestBytes, first.Bytes(), out.Bytes(), want)
+		}
+	}
 	newLen := c.HostLen + n
 	got := byLabel(out.Features())
 	if len(out.Features()) != len(c.Host)+len(c.Guest) {
